@@ -215,7 +215,8 @@ def work(job):
     top = (1 << (8 * nb)) - 1
     E = lambda v: enc_int(v, nb, order)
     pat = lambda: prng.below(256)
-    light = vm.get("slow") and tier == "quick"
+    # cost grows with bits^3; slow variants and curves >= 384 bit get a reduced (still complete by kind) set
+    light = (vm.get("slow") or c.bits >= 384) and tier == "quick"
 
     def cls(*a):
         part["classes"].add((oname, "chk" if chk else "nochk") + a)
